@@ -250,3 +250,48 @@ def norm_renamed(node, mapping):
         def visit_Name(self, n):
             return ast.copy_location(ast.Name(id=mapping.get(n.id, n.id), ctx=n.ctx), n)
     return ast.unparse(R().visit(_copy.deepcopy(node))).replace("$", "_")
+
+
+def _walk_shallow(node):
+    from .cfg import walk_shallow
+
+    return walk_shallow(node)
+
+
+def inline_single_defs(func_node):
+    """{name: expression} for locals of the function that are bound exactly once by a plain assignment (flags such as
+    `fresh = bool(copy_operations or update)`), used to read a branch condition through its local names"""
+    seen = {}
+    for st in _walk_shallow(func_node):
+        if isinstance(st, ast.Assign) and len(st.targets) == 1 and isinstance(st.targets[0], ast.Name):
+            seen.setdefault(st.targets[0].id, []).append(st.value)
+        elif isinstance(st, (ast.AugAssign, ast.AnnAssign)) and isinstance(st.target, ast.Name):
+            seen.setdefault(st.target.id, []).append(None)
+        elif isinstance(st, (ast.For, ast.With)):
+            for x in ast.walk(st.target if isinstance(st, ast.For) else ast.Module(body=[], type_ignores=[])):
+                if isinstance(x, ast.Name):
+                    seen.setdefault(x.id, []).append(None)
+    return {k: v[0] for k, v in seen.items() if len(v) == 1 and v[0] is not None}
+
+
+def read_through(test, defs, depth=0, keep=("update",)):
+    """the condition with single-definition locals replaced by their definitions and bool(x) unwrapped"""
+    import copy as _copy
+
+    if depth > 3:
+        return test
+
+    class R(ast.NodeTransformer):
+        def visit_Name(self, n):
+            if isinstance(n.ctx, ast.Load) and n.id in defs and n.id not in keep:
+                return read_through(_copy.deepcopy(defs[n.id]), defs, depth + 1, keep)
+            return n
+
+        def visit_Call(self, n):
+            self.generic_visit(n)
+            if isinstance(n.func, ast.Name) and n.func.id == "bool" and len(n.args) == 1 and not n.keywords:
+                return n.args[0]
+            return n
+    return R().visit(_copy.deepcopy(test))
+
+
